@@ -8,7 +8,7 @@
 Require Import Base Overlap Mask MaskProofs.
 Require Import OverlapProofs Tables_lexer Lexer Condense ListLemmas TokenInv CondenseInv LexerProofs
   CondPatterns3 CondPattern CondSpaces CondInitialisms CondSuffixQuotes Shape NumberFinite WordsMaximal DocumentProofs
-  C02Wrappers C02Gapped C02WrappersProofs C02Quotes C02GapPasses C02Markdown C02MarkdownProofs C02NumberText.
+  C02Wrappers C02Gapped C02WrappersProofs C02Quotes C02GapPasses C02Markdown C02MarkdownProofs C02NumberText C02Findings.
 From Coq Require Import ZArith.
 
 (* ---------- the lexer ---------- *)
@@ -587,3 +587,94 @@ Example C02_number_text_nonvacuous :
         mktok (mkspan 11 16) (KNumber (mknumber false 15 1%Z None 10 3))]
   /\ DecLit [45;49;46;53;101;50]%N true 15 1%Z.
 Proof. split; [vm_compute; reflexivity|apply parse_f64_declit; vm_compute; reflexivity]. Qed.
+
+(* ====================== phase 5: the open findings characterised exactly; Document::parse over Markdown ======================
+   Proofs/C02Findings.v. *)
+
+(* F7 as an EQUIVALENCE: under uni_laws a Word token of a plain-English document contains a whitespace character
+   if and only if its text is `et <blanks / tabs / newlines, at least one> al.` in any capitalisation (et_al_text) —
+   the class the harness marks `[et <whitespace> al.]` is exactly the failing class of the clause "a word contains no
+   whitespace" (C02_document_shape gave only the direction  whitespace => et al.) *)
+Theorem C02_word_whitespace_iff : forall u, uni_laws u -> forall s,
+  exists ts, document_plain u s = Ok ts /\
+    Forall (fun t => tkind_of t = KWord -> (~ no_ws u (tok_text s t) <-> et_al_text (tok_text s t))) ts.
+Proof. exact document_word_ws_iff. Qed.
+Check C02_word_whitespace_iff : forall u, uni_laws u -> forall s,
+  exists ts, document_plain u s = Ok ts /\
+    Forall (fun t => tkind_of t = KWord -> (~ no_ws u (tok_text s t) <-> et_al_text (tok_text s t))) ts.
+Print Assumptions C02_word_whitespace_iff.
+
+(* a run of a gapped vector is contiguous in the text (tiles start..end) iff every position start..end is covered by
+   one of its tokens *)
+Theorem C02_gapped_contiguous_iff : forall a b g, g <> [] -> Gapped a b g -> (Contiguous g <-> AllCovered g).
+Proof. exact gapped_contiguous_iff. Qed.
+Check C02_gapped_contiguous_iff : forall a b g, g <> [] -> Gapped a b g -> (Contiguous g <-> AllCovered g).
+Print Assumptions C02_gapped_contiguous_iff.
+
+(* F28 as an EQUIVALENCE: on every gapped vector inside the text Document::parse returns a gapped vector each of whose
+   tokens spans a run g of consecutive tokens of the given vector, and that token covers only characters the run
+   covers (AllCovered) if and only if the run is contiguous in the text (Contiguous): the harness marker
+   `[condensed across a gap]` (a document token with uncovered text between two of the parser tokens it spans) is
+   exactly "the condensed run was not contiguous" *)
+Theorem C02_across_gap_iff : forall src t0, Gapped 0 (length src) t0 ->
+  exists t9, document_passes src t0 = Ok t9 /\ Gapped 0 (length src) t9 /\
+    Grouped (fun g _ => True /\ (Contiguous g <-> AllCovered g)) t0 t9.
+Proof. exact document_passes_gap_iff. Qed.
+Check C02_across_gap_iff : forall src t0, Gapped 0 (length src) t0 ->
+  exists t9, document_passes src t0 = Ok t9 /\ Gapped 0 (length src) t9 /\
+    Grouped (fun g _ => True /\ (Contiguous g <-> AllCovered g)) t0 t9.
+Print Assumptions C02_across_gap_iff.
+
+(* Document::new(text, Markdown) END TO END, partial: under the contract of the event stream Markdown::parse has the
+   token invariant, and when all its tokens cover characters (no zero-width Newline / ParagraphBreak survives the final
+   pop: single-block documents) Document::parse never panics on them, the document's tokens are a gapped tiling of the
+   text, each spanning a run of consecutive Markdown tokens, quotes paired up to the unpaired one.
+   MISSING (hence _partial): vectors that keep zero-width breaks; the three _limit Examples below show that the token
+   invariant alone does not carry through condense_spaces / condense_newlines / condense_latin *)
+Theorem C02_document_markdown_partial : forall u ilt src evs,
+  Forall valid_char src -> md_contract src evs ->
+  exists ts, markdown_parse u ilt src evs = Ok ts /\ TokInv (length src) ts /\
+    (Forall covers_chars ts ->
+     exists t9, document_markdown u ilt src evs = Ok t9 /\ Gapped 0 (length src) t9 /\ Coarse ts t9 /\
+       QuotesOkBut (unpaired_quote t9) t9 /\ (NoTwins ts -> QuotesOk t9)).
+Proof. exact document_markdown_partial. Qed.
+Check C02_document_markdown_partial : forall u ilt src evs,
+  Forall valid_char src -> md_contract src evs ->
+  exists ts, markdown_parse u ilt src evs = Ok ts /\ TokInv (length src) ts /\
+    (Forall covers_chars ts ->
+     exists t9, document_markdown u ilt src evs = Ok t9 /\ Gapped 0 (length src) t9 /\ Coarse ts t9 /\
+       QuotesOkBut (unpaired_quote t9) t9 /\ (NoTwins ts -> QuotesOk t9)).
+Print Assumptions C02_document_markdown_partial.
+
+(* ---------- non-vacuity ---------- *)
+(* the run behind the Ellipsis 1..9 of the F28 witness is gapped, not contiguous, and position 2 is uncovered *)
+Example C02_across_gap_nonvacuous :
+  let g := [mktok (mkspan 1 2) (KPunct PPeriod); mktok (mkspan 8 9) (KPunct PPeriod)] in
+  Gapped 0 9 g /\ group_token g (KPunct PEllipsis) = mktok (mkspan 1 9) (KPunct PEllipsis) /\
+  ~ Contiguous g /\ ~ covered_by g 2.
+Proof. exact gap_iff_example. Qed.
+(* the real stream of `x ![[a|]] Old _a_ b`: contract met, five covering tokens, the document has the same five *)
+Example C02_document_markdown_nonvacuous :
+  md_contract md_back_src md_back_evs /\
+  markdown_parse ascii_uni false md_back_src md_back_evs = Ok md_back_out /\
+  Forall covers_chars md_back_out /\
+  document_markdown ascii_uni false md_back_src md_back_evs = Ok md_back_out.
+Proof. exact document_markdown_example. Qed.
+
+(* ---------- LIMITS (labelled): what a theorem about vectors WITH zero-width tokens has to exclude ----------
+   (a) a zero-width Newline that sits before the end of an earlier token is merged by condense_newlines with a covering
+       Newline that follows it in the vector: TokInv in, every token inside the text, overlapping tokens out *)
+Example C02_zero_width_newline_limit :
+  TokInv (length lim_a_src) lim_a_in /\ Forall (fun t => tend t <= length lim_a_src) lim_a_in /\
+  document_passes lim_a_src lim_a_in = Ok lim_a_out /\ ~ OrderedDisjoint lim_a_out.
+Proof. exact zero_width_newline_limit. Qed.
+(* (b) the double cursor increment of condense_spaces skips a zero-width token and absorbs the Space after it: the
+       pass is not a grouping of the vector (the skipped token stays behind the merged Space 0..3) *)
+Example C02_zero_width_space_quirk_limit :
+  TokInv 3 lim_b_in /\ condense_spaces lim_b_in = Ok [mktok (mkspan 0 3) (KSpace 4); zw 2 2].
+Proof. exact zero_width_space_quirk_limit. Qed.
+(* (c) TokInv bounds covering tokens only: a zero-width Newline beyond the text enters the hull of `et <nl> al.`, the
+       Word 0..100 is out of bounds and the dictionary look-up panics — Document::parse is not total on TokInv vectors *)
+Example C02_zero_width_out_of_text_limit :
+  TokInv (length lim_c_src) lim_c_in /\ document_passes lim_c_src lim_c_in = Panic PIndex.
+Proof. exact zero_width_out_of_text_limit. Qed.
